@@ -220,7 +220,14 @@ _BQ = [dict(M=3, N=3, basisM=bm, basisN=bn, nparticles=p) for bm in ("Cardinal",
 _BT = _BQ + [dict(M=4, N=3, basisM=bm, basisN=bn, nparticles=2) for bm in ("Cardinal", "Chebyshev")
              for bn in ("Cardinal", "Chebyshev")] + [dict(M=3, N=5, basisM="Chebyshev", basisN="Chebyshev", nparticles=1)]
 
+from props.c13 import h_deltas as _h_deltas
+
 HARNESSES = [
+    HarnessDef("moments-basis-independence", _h_deltas,
+               [dict(M=3, N=3, T0=1.0, basisM="Chebyshev", basisN="Chebyshev", nparticles=2),
+                dict(M=4, N=3, T0=1.0, basisM="Chebyshev", basisN="Cardinal", nparticles=1),
+                dict(M=3, N=3, T0=1.0, basisM="Cardinal", basisN="Chebyshev", nparticles=1)],
+               max_paths=4, timeout_s=120, encodes=[BZ.BoltzmannSolver.getDeltas], random_validation=1),
     HarnessDef("profile-derivatives", h_derivatives, _AQ, _AT, max_paths=8, timeout_s=60,
                encodes=[BZ.BoltzmannSolver.buildLinearEquations, Polynomial.derivative,
                         Polynomial.derivMatrix], random_validation=1),
